@@ -16,14 +16,6 @@ open JinjaV.Gen.BcCacheSites
 
 /-! ### the configuration read from the source -/
 
-def caughtAt (call : String) : List String :=
-  match decoderSites.find? (fun s => s.call == call) with
-  | some s => s.caught
-  | none => []
-
-/-- `Bucket.load_bytecode` with the handlers as they are in the source now -/
-def genCfg (magic : Bytes) : LoadCfg :=
-  { magic := magic, pickleCaught := caughtAt "pickle.load", marshalCaught := caughtAt "marshal.load" }
 
 /-- per call site: is the decoder call under a handler covering the decoder's exception set? -/
 def pickleGuarded : Bool := covers (caughtAt "pickle.load") pickleExc
@@ -169,9 +161,6 @@ theorem short_entry_miss {Ck Code : Type} [DecidableEq Ck] (cfg : LoadCfg) (pl :
   simp [this]
 
 /-! a concrete codec for the examples: checksum and code are one byte each -/
-def exDec : Bytes → Dec Nat
-  | [] => .raise (mroOf "EOFError")
-  | x :: r => .ok x r
 
 theorem exDec_rt : RoundTrip (fun n : Nat => [n]) exDec := by intro v r; rfl
 theorem exDec_contract (set : List String) (h : "EOFError" ∈ set) (hc : MroClosed set (mroOf "EOFError")) :
@@ -189,10 +178,6 @@ example : Contract exDec marshalExc := exDec_contract _ (by decide) (by decide)
 
 /-! ### memcache_errors -/
 
-def mcCaught (call : String) : List String :=
-  match mcGuards.find? (fun g => g.call == call) with
-  | some g => g.caught
-  | none => []
 
 /-- both memcached client calls are inside `try … except Exception: if not self.ignore_memcache_errors: raise`, and the
     value fetched goes to `bytecode_from_string` only when `get` did not raise -/
@@ -474,8 +459,6 @@ end History
 theorem key_ignores_configuration : keyInputs = ["filename", "name"] ∧ checksumInputs = ["source"] := by decide
 
 /-! a concrete system for the examples: sources, checksums and code are numbers; configuration `c` compiles `s` to `10*c+s` -/
-def exCodec : Codec Nat Nat Nat :=
-  { magic := [7, 7], hash := id, encCk := fun n => [n], encCode := fun n => [n], pl := exDec, ml := exDec }
 
 example : (Sys.run (genCfg [7, 7]) exCodec (fun c s => 10 * c + s) { src := fun _ => 1, cache := fun _ => none }
             [.load 1 0, .load 1 0, .modify 0 2, .load 1 0, .clear, .load 1 0]).2
